@@ -118,6 +118,13 @@ func strip(v ssa.Value) ssa.Value {
 			v = x.X
 		case *ssa.ChangeInterface:
 			v = x.X
+		case *ssa.Parameter:
+			// inside a predicate helper that is being looked into: the parameter is the call's argument
+			if a, ok := activeSubst[x]; ok && a != v {
+				v = a
+				continue
+			}
+			return v
 		default:
 			return v
 		}
@@ -157,6 +164,9 @@ func pathOf(v ssa.Value, d int) string {
 	}
 	switch x := v.(type) {
 	case *ssa.Parameter:
+		if a, ok := activeSubst[x]; ok && a != v {
+			return pathOf(a, d+1)
+		}
 		return x.Name()
 	case *ssa.FreeVar:
 		return x.Name()
@@ -352,7 +362,14 @@ func MustCross(site ssa.Instruction, pred EdgePred) (guarded bool, nsel int) {
 		c, t := e.Cond()
 		if pred(e, c, t) {
 			sel[e] = true
+			continue
 		}
+		// the edge may stand for conditions decided inside a boolean helper / a boolean variable
+		impliedConds(c, t, 2, func(c2 ssa.Value, t2 bool) {
+			if !sel[e] && pred(e, c2, t2) {
+				sel[e] = true
+			}
+		})
 	}
 	r := reach(fn.Blocks[0], func(e Edge) bool { return sel[e] })
 	return !r[site.Block()], len(sel)
